@@ -1,5 +1,6 @@
 import CwMt.Proofs.Engine
 import CwMt.Proofs.Prefix
+import CwMt.Proofs.Layout
 /-
   C08 — Each contract's storage is private to it and is all it can touch.
   Two layers: (1) at the byte level, the raw key spaces of different contracts and of the other
@@ -40,5 +41,79 @@ theorem contract_windows_disjoint (a b : String) (pa pb k : Key)
     (hb : toLPNested [("wasm".toUTF8.toList), ("contract_data/" ++ b).toUTF8.toList] = .ok pb)
     (hka : pa <+: k) (hkb : pb <+: k) : ("contract_data/" ++ a).toUTF8.toList = ("contract_data/" ++ b).toUTF8.toList :=
   Engine.contract_windows_disjoint a b pa pb k ha hb hka hkb
+
+end CwMt.C08
+
+/-
+  Byte level, contract versus the rest of the chain store. The raw key layout
+  (/repo/src/wasm.rs:30-33,142,156,169, staking.rs:111-113, bank.rs): contract `a` owns the raw keys
+  under `toLPNested ["wasm", "contract_data/" ++ a]`; the contract registry lives under
+  `toLPNested ["wasm", "contracts"]`; bank, staking and distribution under `toLPNested ["bank"]`,
+  `["staking"]`, `["distribution"]`. For every address string and every raw key, whatever its
+  bytes: a key of the contract's space is in none of the others. Lemmas (including what
+  `String.toUTF8` of the literals is, byte by byte) live in CwMt/Proofs/Layout.lean.
+-/
+namespace CwMt.C08
+open CwMt
+
+theorem contract_window_disjoint_from_bank (a : String) (pc pm k : Key)
+    (hc : toLPNested [("wasm".toUTF8.toList), ("contract_data/" ++ a).toUTF8.toList] = .ok pc)
+    (hm : toLPNested [("bank".toUTF8.toList)] = .ok pm) (hkc : pc <+: k) (hkm : pm <+: k) : False :=
+  Layout.contract_window_disjoint_from_bank a pc pm k hc hm hkc hkm
+
+theorem contract_window_disjoint_from_staking (a : String) (pc pm k : Key)
+    (hc : toLPNested [("wasm".toUTF8.toList), ("contract_data/" ++ a).toUTF8.toList] = .ok pc)
+    (hm : toLPNested [("staking".toUTF8.toList)] = .ok pm) (hkc : pc <+: k) (hkm : pm <+: k) :
+    False :=
+  Layout.contract_window_disjoint_from_staking a pc pm k hc hm hkc hkm
+
+theorem contract_window_disjoint_from_distribution (a : String) (pc pm k : Key)
+    (hc : toLPNested [("wasm".toUTF8.toList), ("contract_data/" ++ a).toUTF8.toList] = .ok pc)
+    (hm : toLPNested [("distribution".toUTF8.toList)] = .ok pm) (hkc : pc <+: k) (hkm : pm <+: k) :
+    False :=
+  Layout.contract_window_disjoint_from_distribution a pc pm k hc hm hkc hkm
+
+/-- … nor in the contract registry, although both live under `wasm`: `contract_data/…` and
+`contracts` differ in their ninth byte (`_` / `s`). -/
+theorem contract_window_disjoint_from_registry (a : String) (pc pr k : Key)
+    (hc : toLPNested [("wasm".toUTF8.toList), ("contract_data/" ++ a).toUTF8.toList] = .ok pc)
+    (hr : toLPNested [("wasm".toUTF8.toList), ("contracts".toUTF8.toList)] = .ok pr)
+    (hkc : pc <+: k) (hkr : pr <+: k) : False :=
+  Layout.contract_window_disjoint_from_registry a pc pr k hc hr hkc hkr
+
+/-! ### non-vacuity: the prefixes in the hypotheses exist and are the expected bytes -/
+
+theorem bank_prefix : toLPNested [("bank".toUTF8.toList)] = .ok [0, 4, 98, 97, 110, 107] :=
+  Layout.bank_prefix
+
+theorem staking_prefix : toLPNested [("staking".toUTF8.toList)] =
+    .ok [0, 7, 115, 116, 97, 107, 105, 110, 103] := Layout.staking_prefix
+
+theorem distribution_prefix : toLPNested [("distribution".toUTF8.toList)] =
+    .ok [0, 12, 100, 105, 115, 116, 114, 105, 98, 117, 116, 105, 111, 110] :=
+  Layout.distribution_prefix
+
+theorem registry_prefix : toLPNested [("wasm".toUTF8.toList), ("contracts".toUTF8.toList)] =
+    .ok [0, 4, 119, 97, 115, 109, 0, 9, 99, 111, 110, 116, 114, 97, 99, 116, 115] :=
+  Layout.registry_prefix
+
+/-- Every address of at most 65521 bytes has a storage prefix (longer ones make `encode_length`
+panic): `00 04 "wasm"`, the 2-byte big-endian length of the namespace, `"contract_data/"`, the
+address. -/
+theorem contract_prefix (a : String) (h : a.toUTF8.toList.length ≤ 65521) :
+    toLPNested [("wasm".toUTF8.toList), ("contract_data/" ++ a).toUTF8.toList] =
+      .ok ([0, 4, 119, 97, 115, 109] ++
+        ([UInt8.ofNat ((14 + a.toUTF8.toList.length) / 256),
+          UInt8.ofNat ((14 + a.toUTF8.toList.length) % 256)] ++
+        ([99, 111, 110, 116, 114, 97, 99, 116, 95, 100, 97, 116, 97, 47] ++ a.toUTF8.toList))) :=
+  Layout.contract_prefix a h
+
+/-- the shortest possible address, the empty one: its space `00 04 wasm 00 0e contract_data/` and the
+registry's `00 04 wasm 00 09 contracts` share the first six bytes and part ways at the length -/
+example : toLPNested [("wasm".toUTF8.toList), ("contract_data/" ++ "").toUTF8.toList] =
+    .ok [0, 4, 119, 97, 115, 109, 0, 14, 99, 111, 110, 116, 114, 97, 99, 116, 95, 100, 97, 116, 97, 47] := by
+  rw [contract_prefix "" (by rw [show "" = String.ofList [] from rfl, Layout.utf8_ofList]; decide),
+    show "" = String.ofList [] from rfl, Layout.utf8_ofList]
+  decide
 
 end CwMt.C08
